@@ -48,12 +48,12 @@ type pairNT struct{ N, T *Term }
 func (p pairNT) String() string { return "(" + p.N.String() + ", " + p.T.String() + ")" }
 
 type flagFlow struct {
-	c       *Ctx
-	field   *types.Var
-	direct  func(f Fact) (pairNT, bool) // recognises the justifying fact, returns its (node, task) terms
-	stores  []FieldStore
-	jmemo   map[*ssa.Store][]pairNT
-	inprog  map[*ssa.Store]bool
+	c      *Ctx
+	field  *types.Var
+	direct func(f Fact) (pairNT, bool) // recognises the justifying fact, returns its (node, task) terms
+	stores []FieldStore
+	jmemo  map[*ssa.Store][]pairNT
+	inprog map[*ssa.Store]bool
 }
 
 func newFlagFlow(c *Ctx, field *types.Var, direct func(f Fact) (pairNT, bool)) *flagFlow {
